@@ -6,8 +6,11 @@ import (
 	"bytes"
 	"encoding/hex"
 	"fmt"
+	"runtime"
 	"sort"
 	"strings"
+	"sync"
+	"sync/atomic"
 	"testing"
 
 	"github.com/spikeekips/mitum/base"
@@ -922,118 +925,150 @@ type c24qSearch struct {
 	fresh  func() (c24qRunner, func() string, func())
 }
 
-type c24qState struct {
-	path []string
-	mine bool
+type c24qResult struct {
+	key  string
+	vios []c24qVio
+	obs  string
 }
 
-// c24qBFS: explicit-state BFS over histories; every shard expands the first
-// sharedLevels levels identically (accounting only what it owns), the frontier
-// below is partitioned.
-func c24qBFS(r *vlib.Run, s c24qSearch, owner *int) {
-	const sharedLevels = 2
+// c24qParallel runs f(0..n-1) on GOMAXPROCS workers.
+func c24qParallel(n int, f func(int)) {
+	w := runtime.GOMAXPROCS(0)
+	if w > n {
+		w = n
+	}
+
+	var wg sync.WaitGroup
+	next := int64(-1)
+
+	for k := 0; k < w; k++ {
+		wg.Add(1)
+
+		go func() {
+			defer wg.Done()
+
+			for {
+				i := int(atomic.AddInt64(&next, 1))
+				if i >= n {
+					return
+				}
+
+				f(i)
+			}
+		}()
+	}
+
+	wg.Wait()
+}
+
+// c24qBFS: level-synchronous explicit-state BFS over histories. The histories of
+// one chunk run in parallel (each on its own fresh pool); their results are
+// merged sequentially in (state, event) order, so the outcome is exactly that
+// of a sequential BFS and independent of scheduling.
+func c24qBFS(r *vlib.Run, s c24qSearch) {
+	const chunkStates = 256
 
 	seen := map[string]bool{}
 
-	run := func(path []string) (string, []c24qVio, string) {
+	run := func(path []string) (res c24qResult) {
 		x, obs, closef := s.fresh()
 		defer closef()
 
-		var vios []c24qVio
 		for k, ev := range path {
-			vios = x.apply(ev, k == len(path)-1)
+			res.vios = x.apply(ev, k == len(path)-1)
 		}
 
-		return x.key(), vios, obs()
+		res.key, res.obs = x.key(), obs()
+
+		return res
 	}
 
-	*owner++
-	root := c24qState{mine: r.Mine(*owner)}
 	{
-		k, _, _ := run(nil)
+		k := run(nil).key
 		seen[k] = true
-
-		if root.mine {
-			r.State(s.id + "#" + k)
-		}
+		r.State(s.id + "#" + k)
 	}
 
-	frontier := []c24qState{root}
+	_, replaying := r.Replaying()
+	frontier := [][]string{nil}
 
 	for level := 0; level < s.depth; level++ {
-		var next []c24qState
+		var next [][]string
 
-		for _, st := range frontier {
-			if level >= sharedLevels && !st.mine {
-				continue
+		for c0 := 0; c0 < len(frontier); c0 += chunkStates {
+			c1 := c0 + chunkStates
+			if c1 > len(frontier) {
+				c1 = len(frontier)
 			}
 
 			if r.Expired() {
-				r.Cap(fmt.Sprintf("deadline in search %s at level %d", s.id, level))
+				r.Cap(fmt.Sprintf("deadline in search %s at level %d, state %d/%d", s.id, level, c0, len(frontier)))
 
 				return
 			}
 
-			for _, ev := range s.events {
-				path := append(append([]string{}, st.path...), ev)
-				id := s.id + "/" + strings.Join(path, "/")
+			type job struct {
+				path []string
+				id   string
+			}
 
-				if !r.WantPrefix(id) {
-					continue
+			var jobs []job
+
+			for _, st := range frontier[c0:c1] {
+				for _, ev := range s.events {
+					path := append(append([]string{}, st...), ev)
+					id := s.id + "/" + strings.Join(path, "/")
+
+					if !r.WantPrefix(id) {
+						continue
+					}
+
+					jobs = append(jobs, job{path, id})
 				}
+			}
 
-				key, vios, obs := run(path)
+			results := make([]c24qResult, len(jobs))
+			c24qParallel(len(jobs), func(i int) { results[i] = run(jobs[i].path) })
 
-				account := st.mine
-				if _, replaying := r.Replaying(); replaying {
-					account = r.Want(id)
-				}
+			for i, j := range jobs {
+				res := results[i]
 
-				if account {
+				if !replaying || r.Want(j.id) { // in a replay only the recorded case reports
 					r.Transition()
 					r.Trace()
 					r.Eval()
-					r.Outcome(obs)
-					r.Max("max_depth", int64(len(path)))
+					r.Outcome(res.obs)
+					r.Max("max_depth", int64(len(j.path)))
 
-					if strings.Contains(obs, "false") || strings.Contains(obs, "gone=1") || strings.Contains(obs, "gone=2") ||
-						strings.Contains(obs, "gone=3") || strings.Contains(obs, "gone=4") || strings.Contains(obs, "equivocation") {
-						r.Nontrivial(id)
+					if strings.Contains(res.obs, "false") || strings.Contains(res.obs, "equivocation") ||
+						(strings.Contains(res.obs, "clean:") && !strings.Contains(res.obs, "gone=0")) {
+						r.Nontrivial(j.id)
 					}
 
-					for _, v := range vios {
+					for _, v := range res.vios {
 						r.Outcome("violation:" + fmt.Sprint(v.sig["kind"]))
-						r.Violation(id, v.sig, v.detail, map[string]any{"search": s.id, "events": path})
+						r.Violation(j.id, v.sig, v.detail, map[string]any{"search": s.id, "events": j.path})
 					}
 				}
 
 				// NOTE a violating transition is not terminal: the oracle is per event and
 				// the model follows the real records after a cleanup.
-				if seen[key] {
+				if seen[res.key] {
 					continue
 				}
 
-				seen[key] = true
+				seen[res.key] = true
 
-				child := c24qState{path: path}
-				if level+1 <= sharedLevels {
-					*owner++
-					child.mine = r.Mine(*owner)
-				} else {
-					child.mine = st.mine
+				if r.State(s.id+"#"+res.key) && len(j.path) == 3 {
+					r.Sample(map[string]any{"search": s.id, "history": strings.Join(j.path, "/"), "state": res.key, "last_observation": res.obs})
 				}
 
-				if child.mine {
-					if r.State(s.id+"#"+key) && len(path) == 3 {
-						r.Sample(map[string]any{"search": s.id, "history": strings.Join(path, "/"), "state": key, "last_observation": obs})
-					}
-				}
-
-				next = append(next, child)
+				next = append(next, j.path)
 			}
 		}
 
 		frontier = next
+		r.Add(fmt.Sprintf("new_states_%s_depth_%d", s.id, level+1), int64(len(frontier)))
 	}
 }
 
@@ -1064,6 +1099,11 @@ func TestVerifC24(t *testing.T) {
 		[]cfg{{3, 3}, {4, 3}},
 		[]cfg{{3, 6}, {4, 5}, {1, 4}, {2, 4}, {5, 5}})
 
+	if _, replaying := r.Replaying(); replaying {
+		// only prefixes of the recorded history are expanded (WantPrefix); it may come from the thorough tier
+		cfgs = []cfg{{1, 64}, {2, 64}, {3, 64}, {4, 64}, {5, 64}}
+	}
+
 	var cfgtxt []string
 	for _, c := range cfgs {
 		cfgtxt = append(cfgtxt, fmt.Sprintf("configured-depth=%d:history-depth=%d", c.deep, c.depth))
@@ -1082,7 +1122,13 @@ func TestVerifC24(t *testing.T) {
 	r.Assume("the configured depths are the unexported TempPool fields cleanRemovedBallotDeep / cleanRemovedProposalDeep (default 3, set in-package by the harness as the repository's own tests do)")
 	r.Assume("sequential callers only; the concurrent half of C24 is a separate test unit")
 
-	var owner int
+	if sh, nsh := r.Shard(); nsh > 1 && sh > 0 {
+		// the searches are parallel inside one process (global state dedup needs shared memory);
+		// with several shards configured only shard 0 works
+		r.Outcome("idle-shard")
+
+		return
+	}
 
 	for _, c := range cfgs {
 		deep := c.deep
@@ -1098,7 +1144,7 @@ func TestVerifC24(t *testing.T) {
 					}
 				}
 			},
-		}, &owner)
+		})
 
 		c24qBFS(r, c24qSearch{
 			id: fmt.Sprintf("p/d%d", deep), events: pevents, depth: c.depth,
@@ -1111,6 +1157,6 @@ func TestVerifC24(t *testing.T) {
 					}
 				}
 			},
-		}, &owner)
+		})
 	}
 }
